@@ -99,7 +99,8 @@ func (p DocParams) YAML() string {
 	resp200("        ")
 	w("        '204': {description: none}\n")
 	others("        ")
-	w("  /ping:\n    get:\n      operationId: ping\n      responses:\n")
+	w("  /ping:\n    head:\n      operationId: pingHead\n      responses:\n        '200': {description: ok}\n")
+	w("    get:\n      operationId: ping\n      responses:\n")
 	w("        '204': {description: none}\n")
 	w("        '200':\n          description: ok\n          content:\n            text/plain:\n              schema: {type: string, minLength: 2}\n")
 	w("components:\n  securitySchemes:\n    key: {type: apiKey, in: header, name: X-Key}\n")
